@@ -431,10 +431,13 @@ func (x *smbCtx) appendArg(ce *ast.CallExpr, stream string) ([]mop, bool) {
 
 func (x *smbCtx) rangeLoop(s *ast.RangeStmt) (mop, bool) {
 	f, ok := x.fieldOf(s.X)
-	if !ok || s.Value == nil {
+	if !ok {
 		return mop{}, false
 	}
-	elem := identName(s.Value)
+	elem := "?"
+	if s.Value != nil {
+		elem = identName(s.Value)
+	}
 	body := s.Body.List
 	// shape A: 3 statements  buf := make; PutUintN(buf, uintN(elem)); X = append(X, buf...)
 	if len(body) == 3 {
@@ -452,6 +455,30 @@ func (x *smbCtx) rangeLoop(s *ast.RangeStmt) (mop, bool) {
 					fmt.Sscanf(fn[strings.Index(fn, "PutUint")+7:], "%d", &w)
 					stream := streamOfVar(identName(as.Lhs[0]))
 					if stream != "" {
+						return mop{Stream: stream, Kind: "intarray", Field: f, Width: w / 8, Endian: endian, Type: x.fieldType(f)}, true
+					}
+				}
+			}
+		}
+	}
+	// shape A': for i := range c.F { PutUintN(buf, uintN(c.F[i])); X = append(X, buf...) }  (index form, buffer made outside)
+	if len(body) == 2 && s.Value == nil && s.Key != nil {
+		iv := identName(s.Key)
+		es, ok1 := body[0].(*ast.ExprStmt)
+		as, ok2 := body[1].(*ast.AssignStmt)
+		if ok1 && ok2 && iv != "" {
+			if ce, ok := es.X.(*ast.CallExpr); ok {
+				fn := identName(ce.Fun)
+				want := "(" + x.recv + "." + f + "[" + iv + "])"
+				if strings.Contains(fn, ".PutUint") && len(ce.Args) == 2 && strings.HasSuffix(src(x.lp.fset, ce.Args[1]), want) {
+					endian := "BE"
+					if strings.Contains(fn, "LittleEndian") {
+						endian = "LE"
+					}
+					w := 0
+					fmt.Sscanf(fn[strings.Index(fn, "PutUint")+7:], "%d", &w)
+					stream := streamOfVar(identName(as.Lhs[0]))
+					if ap, ok := isCall(as.Rhs[0], "append"); ok && stream != "" && len(ap.Args) == 2 && identName(ap.Args[1]) == identName(ce.Args[0]) {
 						return mop{Stream: stream, Kind: "intarray", Field: f, Width: w / 8, Endian: endian, Type: x.fieldType(f)}, true
 					}
 				}
@@ -737,6 +764,12 @@ func (x *smbCtx) unmarshalStmts(stmts []ast.Stmt, seenResetp *int, nested bool) 
 				}
 			}
 			x.opaqueU(st)
+		case *ast.RangeStmt:
+			if us, ok := x.arrayRangeLoop(s); ok {
+				x.cmd.U = append(x.cmd.U, us...)
+				continue
+			}
+			x.opaqueU(st)
 		default:
 			x.opaqueU(st)
 		}
@@ -838,6 +871,46 @@ func (x *smbCtx) countedLoop(s *ast.ForStmt) ([]uop, bool) {
 		return nil, false
 	}
 	total := fmt.Sprintf("(EMul (EConst %d) %s)", w, cnt)
+	return []uop{{Stream: stream, Kind: "intarr", Field: f, Width: w, Endian: endian, Len: total},
+		{Stream: stream, Kind: "adv", Len: total}}, true
+}
+
+// arrayRangeLoop recognises  for i := range c.F { c.F[i] = T(binary.E.UintW(S[offset : offset+w])); offset += w }
+// where F is declared [n]T: n*w bytes are read as n integers and passed
+func (x *smbCtx) arrayRangeLoop(s *ast.RangeStmt) ([]uop, bool) {
+	f, ok := x.fieldOf(s.X)
+	if !ok || s.Value != nil || s.Key == nil || len(s.Body.List) != 2 {
+		return nil, false
+	}
+	iv := identName(s.Key)
+	ft := x.fieldType(f)
+	if !strings.HasPrefix(ft, "[") || strings.HasPrefix(ft, "[]") {
+		return nil, false
+	}
+	n := 0
+	if _, err := fmt.Sscanf(ft[1:strings.Index(ft, "]")], "%d", &n); err != nil || n <= 0 {
+		return nil, false
+	}
+	as, ok := s.Body.List[0].(*ast.AssignStmt)
+	if !ok || len(as.Lhs) != 1 || len(as.Rhs) != 1 {
+		return nil, false
+	}
+	ix, ok := as.Lhs[0].(*ast.IndexExpr)
+	if !ok || identName(ix.Index) != iv {
+		return nil, false
+	}
+	if g, ok := x.fieldOf(ix.X); !ok || g != f {
+		return nil, false
+	}
+	stream, endian, w, lo, hi, ok := x.uintAt(as.Rhs[0])
+	if !ok || lo != "(EConst 0)" || hi != fmt.Sprintf("(EConst %d)", w) {
+		return nil, false
+	}
+	adv, ok := s.Body.List[1].(*ast.AssignStmt)
+	if !ok || identName(adv.Lhs[0]) != "offset" || adv.Tok != token.ADD_ASSIGN || src(x.lp.fset, adv.Rhs[0]) != fmt.Sprint(w) {
+		return nil, false
+	}
+	total := fmt.Sprintf("(EConst %d)", n*w)
 	return []uop{{Stream: stream, Kind: "intarr", Field: f, Width: w, Endian: endian, Len: total},
 		{Stream: stream, Kind: "adv", Len: total}}, true
 }
